@@ -215,6 +215,17 @@ def run(tier="quick", seed=0, pid=None):
     failures, n = [], 0
     corpus = bodies(rng, tier)
     extra_ids = [('{"jsonrpc":"2.0","id":{"__jsonclass__":["decimal.Decimal",["1"]]},"method":"falsy"}', "translated-id")]
+    # payloads the class translator rejects (C02/C05: answered with a single -32700, nothing runs) when translation is on;
+    # plain data when it is off
+    rejected = []
+    for desc in (["Foo", []], ["no.such.module.K", []], ["bad-name", []], ["", []], ["decimal.Decimal", ["x"]], ["os.sep", []],
+                 ["decimal.Decimal"], ["decimal.Decimal", 5], ["json.nosuchattr", []], [5, []]):
+        for where in ("param", "nested", "batch"):
+            bean = {"__jsonclass__": desc}
+            e = {"jsonrpc": "2.0", "id": 3, "method": "echo", "params": [bean] if where != "nested" else [{"k": [1, bean]}]}
+            rejected.append(json.dumps([e, {"jsonrpc": "2.0", "id": 4, "method": "add", "params": [1, 2]}] if where == "batch" else e))
+    corpus = corpus + rejected
+    rejected = set(rejected)
     for server_v2, with_instance, use_jc, custom in itertools.product((True, False), (False, True), (True, False), (False, True)):
         for body in corpus if not custom else corpus[:300]:
             env = Env()
@@ -242,7 +253,7 @@ def run(tier="quick", seed=0, pid=None):
                 continue
             try:
                 req = json.loads(body) if body != "" else None
-                parsed = True
+                parsed = not (use_jc and body in rejected)
             except ValueError:
                 parsed = False
             if not isinstance(out, str):
